@@ -115,8 +115,10 @@ Proof. vm_compute. reflexivity. Qed.
 Lemma w_Ry_not_symmetric : w_Ry 0 1 <> w_Ry 1 0.
 Proof. apply neq_of_keqb. vm_compute. reflexivity. Qed.
 
-Lemma w_third : kmul qi2ops (kadd qi2ops (kadd qi2ops (k1 qi2ops) (k1 qi2ops)) (k1 qi2ops)) (qi2_of (qz 1 3) (qz 0 1) (qz 0 1) (qz 0 1))
-                = k1 qi2ops.
+(* 1/(d+1) exists in Q(sqrt 2)(i) for d = 2 and d = 4 *)
+Lemma w_third : kmul qi2ops (kadd qi2ops (ofnat qi2ops (2 ^ 1)) (k1 qi2ops)) (qi2_of (qz 1 3) (qz 0 1) (qz 0 1) (qz 0 1)) = k1 qi2ops.
+Proof. apply (proj1 (ui_eqb (o:=qi2ops) _ _)). vm_compute. reflexivity. Qed.
+Lemma w_fifth : kmul qi2ops (kadd qi2ops (ofnat qi2ops (2 ^ 2)) (k1 qi2ops)) (qi2_of (qz 1 5) (qz 0 1) (qz 0 1) (qz 0 1)) = k1 qi2ops.
 Proof. apply (proj1 (ui_eqb (o:=qi2ops) _ _)). vm_compute. reflexivity. Qed.
 
 (* ---- the pinned LI agreed with the reference exactly for symmetric V ---- *)
